@@ -354,6 +354,20 @@ func checkC03(w *Worker) {
 			}
 		}
 	}
+	// a tree whose report crosses the 4096-byte output buffer: all 120 paths of depth <= 4 over 3 segments minus
+	// every third (so that chains, forks and leaves of every kind occur), exotic segment names included
+	uniBig := pathUniverse([]string{"a&b", "c d", "ел"}, 4)
+	w.Explore("large-tree", ExploreOpts{ShardDepth: 3}, body(uniBig, func(x *Exec) []int {
+		var idxs []int
+		drop := x.Choose(3, "input:dropped-residue")
+		limit := 40 + x.Choose(2, "input:size")*80
+		for i := range uniBig {
+			if i%3 != drop && i < limit {
+				idxs = append(idxs, i)
+			}
+		}
+		return idxs
+	}, 2))
 	uni2 := pathUniverse([]string{"a", "b"}, 3) // 14 paths
 	if w.Tier == "quick" {
 		w.Explore("subsets-ab-depth3", ExploreOpts{ShardDepth: 9}, body(uni2, func(x *Exec) []int {
